@@ -248,8 +248,20 @@ fn schema() -> (Schema, Field, Field) {
     (b.build(), idf, body)
 }
 
+/// The machine is shared: under load the operating system refuses threads ("Resource temporarily
+/// unavailable", "Failed to spawn …"). Such a run says nothing about the property; the parent
+/// discards it (counted in the evidence).
+static ENV_FAILURE: std::sync::atomic::AtomicBool = std::sync::atomic::AtomicBool::new(false);
+
+fn note_env(msg: &str) {
+    if msg.contains("Resource temporarily unavailable") || msg.contains("WouldBlock") || msg.contains("Failed to spawn") || msg.contains("failed to spawn") {
+        ENV_FAILURE.store(true, std::sync::atomic::Ordering::SeqCst);
+    }
+}
+
 fn short_err(e: &tantivy::TantivyError) -> String {
     let s = format!("{e:?}");
+    note_env(&s);
     let head: String = s.chars().take_while(|c| c.is_alphanumeric()).collect();
     format!("err:{head}")
 }
@@ -360,6 +372,14 @@ impl Child {
         self.clean_stale_locks(at);
         match content_of_storage(self.ram.clone(), self.idf) {
             Ok(c) => {
+                if c != self.last_ok && self.attempts.iter().any(|a| *a == c) {
+                    // a complete attempted commit (its commit() returned Err before meta.json was
+                    // written) has been published after all — `end_merge` saves the committed
+                    // register: from now on this is the state of the index
+                    self.count("attempted-commit-published-later");
+                    self.last_ok = c.clone();
+                    self.attempts.clear();
+                }
                 let ok = if self.policy_b && self.writer_errored {
                     true // after an unrecovered error only the commit-time rule applies (policy B)
                 } else {
@@ -960,10 +980,9 @@ impl Child {
     }
 
     fn compare_with_model(&mut self, ctx: &mut Ctx) {
-        // with the segment-cut hook a worker hands over several segments per transaction; when one of
-        // them fails and the writer is used on without rollback (policy B) the earlier segments of the
-        // failed transaction are published by the next commit — the one-segment model cannot follow
-        if !self.wl.model_applies() || (self.wl.cut > 0 && self.policy_b) || self.calls.iter().any(|c| c.background) {
+        // with the segment-cut hook a worker hands over several segments per transaction: the model
+        // closes a segment every `cut` documents too (`Fixes.cutDocs`)
+        if !self.wl.model_applies() || self.calls.iter().any(|c| c.background) {
             self.count("model:skipped");
             return;
         }
@@ -989,7 +1008,7 @@ impl Child {
             let tags: Vec<&str> = c.tags.iter().cloned().filter(|t| *t != "gx" && *t != "xx" && *t != "bg").collect();
             if tags.is_empty() { c.tok.clone() } else { format!("{}:{}", c.tok, tags.join("+")) }
         }).collect();
-        let line = format!("C11 run cap {}", if toks.is_empty() { "-".into() } else { toks.join(",") });
+        let line = format!("C11 run cap/{} {}", self.wl.cut, if toks.is_empty() { "-".into() } else { toks.join(",") });
         let resp = ctx.model.ask(&line);
         let model_res: Vec<&str> = resp.split('|').next().unwrap_or("").split(',').collect();
         let real: Vec<CallRec> = self.calls.iter().filter(|c| c.tok != "-").cloned().collect();
@@ -1232,7 +1251,10 @@ fn child_main(ctx: &mut Ctx, case: &Value) {
     }));
     match final_check {
         Ok(Ok(())) => {}
-        Ok(Err((key, what))) => ch.violation("oracle", &key, what),
+        Ok(Err((key, what))) => {
+            note_env(&what);
+            ch.violation("oracle", &key, what)
+        }
         Err(_) => ch.violation("oracle", "C11:panic-after-recovery", "re-opening the index / the new writer panicked".into()),
     }
     let faulted: Vec<String> = log.iter().filter(|r| r.faulted).take(6).map(|r| r.line()).collect();
@@ -1241,6 +1263,7 @@ fn child_main(ctx: &mut Ctx, case: &Value) {
     let any_err = ch.calls.iter().any(|c| c.res != "ok");
     let op_threads: Vec<String> = if fault.is_none() { log.iter().map(|r| format!("{}|{}|{}", r.thread, r.kind.name(), r.path)).collect() } else { vec![] };
     let res = json!({
+        "env_failure": ENV_FAILURE.load(std::sync::atomic::Ordering::SeqCst),
         "op_threads": op_threads,
         "n_ops": n_ops, "n_faulted": n_faulted, "faulted": faulted, "calls": calls, "violations": ch.violations,
         "counts": ch.counts, "any_err": any_err, "gave_up": ch.gave_up,
@@ -1399,6 +1422,10 @@ fn absorb(ctx: &mut Ctx, case: &Value, outcome: ChildOutcome) -> Option<u64> {
         ChildOutcome::Died(st) => {
             ctx.report.case(&canon, true);
             ctx.report.violation("oracle", "C11:process-aborted", format!("the child process died ({st}) (workload {}, k={}, permanent={}, policy {})", case["workload"]["name"], case["k"], case["perm"], case["policy"]), case.clone());
+            None
+        }
+        ChildOutcome::Done(v) if v["env_failure"].as_bool() == Some(true) => {
+            ctx.report.count("runs:discarded-operating-system-refused-threads");
             None
         }
         ChildOutcome::Done(v) => {
